@@ -32,6 +32,7 @@ import Driver.G72x
 import Driver.Small3
 import Driver.Gsm
 import Driver.GeomFix
+import Driver.FdWorld
 open Sf
 
 def lawOf (s : String) : Option G711.Law :=
@@ -109,4 +110,5 @@ def main (args : List String) : IO UInt32 := do
   | "small3" :: rest => Driver.Small3.cmd rest
   | "gsm" :: rest => Driver.Gsm.cmd rest
   | "geomfix" :: rest => Driver.GeomFix.cmd rest
+  | "fdworld" :: _ => FdWorldDriver.cmd
   | _ => IO.eprintln "usage: sfmodel <g711|...> ..."; return 2
